@@ -128,7 +128,7 @@ def _unwrap(f):
     return lambda rec, c=None, **kw: f(rec, **(c if c is not None else kw))
 
 
-CHECKS = [Check("walker", _unwrap(body_walker), lambda: {"c": rates_case()}, quick=400, thorough=5000,
+CHECKS = [Check("walker", _unwrap(body_walker), lambda: {"c": rates_case()}, quick=400, thorough=3000,
                 quick_shards=12)]
 
 
@@ -321,5 +321,5 @@ def body_veto(rec, **c):
                                                "rows": rows, "direction": d, "charge": qa})
 
 
-CHECKS.append(Check("cell_veto_handler", _unwrap(body_veto), lambda: {"c": veto_case()}, quick=25, thorough=400,
+CHECKS.append(Check("cell_veto_handler", _unwrap(body_veto), lambda: {"c": veto_case()}, quick=25, thorough=150,
                     quick_shards=8))
